@@ -656,12 +656,14 @@ class Program:
             anns: dict[str, set] = {}  # attribute name -> protocol fqs it is annotated with
             for f in self.all_functions():
                 for n in ast.walk(f.node):
-                    if isinstance(n, ast.AnnAssign) and isinstance(n.target, ast.Attribute):
-                        for x in ast.walk(n.annotation):
+                    ann_ = n.annotation if isinstance(n, ast.AnnAssign) else getattr(n, "_annotation", None)
+                    tgt_ = n.target if isinstance(n, ast.AnnAssign) else n.targets[0] if isinstance(n, ast.Assign) and len(n.targets) == 1 else None
+                    if ann_ is not None and isinstance(tgt_, ast.Attribute):
+                        for x in ast.walk(ann_):
                             if isinstance(x, (ast.Name, ast.Attribute)):
                                 d = self.resolve_expr(f.module, x)
                                 if d is not None and d.kind == "class" and d.obj.fq in protos:
-                                    anns.setdefault(n.target.attr, set()).add(d.obj.fq)
+                                    anns.setdefault(tgt_.attr, set()).add(d.obj.fq)
             impls: dict[str, set] = {}
             for f in self.all_functions():
                 for n in ast.walk(f.node):
@@ -877,6 +879,8 @@ class Folder:
     def fold(self, m: Module, expr: ast.expr, local: dict[str, Any] | None = None) -> Any:
         p = self.prog
         m = p.origin(m, expr)
+        if isinstance(expr, ast.NamedExpr):
+            return self.fold(m, expr.value, local)
         if isinstance(expr, ast.Constant):
             return expr.value
         if isinstance(expr, ast.Name):
